@@ -137,9 +137,9 @@ fn(T + "run_metaepoch",
           "counted(self._levels[l][i]) == old(counted(self._levels[l][i])) and self._levels[l][i]._active), "
           "pat=self._levels[l][i])", tags="C18 C06"),
        cl("no_structure_change", "forall(lambda l: imp(0 <= l < len(self._levels), len(self._levels[l]) == old(len(self._levels[l]))), "
-          "pat=self._levels[l])", tags="C06 C07"),
+          "pat=self._levels[l])", tags="C06 C07 C08"),
        cl("stopping_is_final", "forall(lambda l, i: imp(0 <= l < len(self._levels) and 0 <= i < len(self._levels[l]) "
-          "and not old(self._levels[l][i]._active), not self._levels[l][i]._active), pat=self._levels[l][i])", tags="C06"),
+          "and not old(self._levels[l][i]._active), not self._levels[l][i]._active), pat=self._levels[l][i])", tags="C06 C08"),
    ])
 
 # ---- run_step / run ----------------------------------------------------------------------------------------------------
